@@ -2,7 +2,7 @@
 Line-protocol front end for the `xflate.Reader` model (kind `xr`).
 -/
 import Compress.Util
-import Compress.XFlate.Reader
+import Compress.XFlate.Cost
 
 namespace Compress.Drv
 open Compress.Util Compress.XFlate
@@ -66,6 +66,41 @@ def runXrOps (v : Variant) (L : Layout) : RState → List String → List String
       let (s', e) := close s
       runXrOps v L s' ops (s!"C:{errName e}" :: acc)
     | _ => ("bad-op" :: acc).reverse
+
+/-- C17: per op, the compressed start offsets of the segments the op opens (kind `xc`). -/
+def showOpens (L : Layout) (os : List Nat) : String :=
+  if os.isEmpty then "-" else ",".intercalate (os.map fun j => toString (getRecords L.recs j).1.comp)
+
+def runXcOps (v : Variant) (L : Layout) : RState → List String → List String → List String
+  | _, [], acc => acc.reverse
+  | s, op :: ops, acc =>
+    match op.splitOn ":" with
+    | ["S", off, wh] =>
+      match parseInt off, parseNat wh with
+      | some o, some w =>
+        let ((s', _, _), os) := seekC v L s o w
+        runXcOps v L s' ops (s!"S:{showOpens L os}" :: acc)
+      | _, _ => ("bad-op" :: acc).reverse
+    | ["R", n, k, e] =>
+      match parseNat n, parseNat k, parseNat e with
+      | some n, some k, some e =>
+        match readC v L s n [(k, e == 1)] (readFuel L) with
+        | none => ("R:HANG" :: acc).reverse
+        | some ((s', _, _), os) => runXcOps v L s' ops (s!"R:{showOpens L os}" :: acc)
+      | _, _, _ => ("bad-op" :: acc).reverse
+    | ["C"] =>
+      let (s', _) := close s
+      runXcOps v L s' ops ("C:-" :: acc)
+    | _ => ("bad-op" :: acc).reverse
+
+def handleXc (kv : List (String × String)) : String :=
+  match parseRecs (lookupD kv "recs" ""), parseSegs (lookupD kv "segs" "") with
+  | some recs, some segs =>
+    let L : Layout := { recs := recs, segs := segs }
+    let v := parseVariant (lookupD kv "v" "fixed")
+    let ops := splitList (lookupD kv "ops" "") '|'
+    "|".intercalate (runXcOps v L (opened v L) ops [])
+  | _, _ => "bad-line"
 
 def handleXr (kv : List (String × String)) : String :=
   match parseRecs (lookupD kv "recs" ""), parseSegs (lookupD kv "segs" "") with
